@@ -1,0 +1,37 @@
+//! Verification hook: read-only dump of the archetypes container (only with `--cfg brood_verif`).
+
+use super::Archetypes;
+use crate::{
+    registry::Registry,
+    verif::ArchetypeDump,
+};
+use alloc::vec::Vec;
+
+impl<R> Archetypes<R>
+where
+    R: Registry,
+{
+    #[allow(clippy::type_complexity)]
+    pub(crate) fn verif_dump(&self) -> (Vec<ArchetypeDump>, Vec<usize>, Vec<(usize, Vec<u8>, usize)>) {
+        let archetypes = self.iter().map(|archetype| archetype.verif_dump()).collect();
+        let type_id_lookup = self
+            .type_id_lookup
+            .values()
+            // SAFETY: Only the address of the slice is used.
+            .map(|identifier| unsafe { identifier.as_slice() }.as_ptr() as usize)
+            .collect();
+        let foreign_identifier_lookup = self
+            .foreign_identifier_lookup
+            .iter()
+            .map(|(key, identifier)| {
+                (
+                    key.as_ptr() as usize,
+                    key.to_vec(),
+                    // SAFETY: Only the address of the slice is used.
+                    unsafe { identifier.as_slice() }.as_ptr() as usize,
+                )
+            })
+            .collect();
+        (archetypes, type_id_lookup, foreign_identifier_lookup)
+    }
+}
